@@ -14,8 +14,9 @@ RULE = ("TDL object trees to depth 4 built through the public classes: type defi
         "definitions and terms; letter sets and wild cards (characters incl. ')', blank and backslash), "
         "environments (nested, with status), includes, line and block comments; whole files of 1-6 entities read "
         "through iterparse; hand-written TDL texts (single-quoted symbols, ':<', comments between entities, "
-        "malformed entities). Compared: the token stream of format(obj) under the real lexer and the events of "
-        "iterparse. Non-trivial = a definition whose body has a feature structure or list; distinct = canonical JSON.")
+        "malformed entities); histories of 1-6 dotted-path assignments on a FeatureStructure in mixed letter case "
+        "with look-ups of the same, shorter, longer and unrelated paths. Compared: the token stream of format(obj) "
+        "under the real lexer, the events of iterparse, the results of the look-ups and both feature listings. Non-trivial = a definition whose body has a feature structure or list; distinct = canonical JSON.")
 EXHAUSTIVE = {"quick": False, "thorough": False}
 EXPLANATION = ("The syntax-level round trip is a theorem over the token stream for all term trees; layout (line width, "
                "indentation), the lexer's regular expressions and the feature-structure container (dotted-path "
@@ -34,12 +35,14 @@ LEVEL_TEXT = ("Proof (Coq, no axioms) about the syntax-level model of delphin/td
               "structures with dotted paths, cons lists empty/open/closed/dotted, diff lists, docstrings on any "
               "term, conjunctions at any depth) returns that very tree, whatever follows; definitions, addenda "
               "(also docstring-only), lexical rules, letter sets, environments, includes and comments round-trip as "
-              "a sequence of parse events. Printer and parser models are tied to the code by kernel-checked "
+              "a sequence of parse events; in the feature-structure container a value stored under a dotted path is "
+              "retrieved by that path in any letter case and assignments do not disturb diverging paths. Printer, "
+              "parser and container models are tied to the code by kernel-checked "
               "correspondence on the real lexer's tokens; text-level stability, docstring normalisation, "
               "dotted-path access in any letter case and the expanded feature list are checked on the implementation "
               "by the oracle.")
-LEVEL_NOTE = ("Partial: layout (width-aware line breaking), the lexer and the FeatureStructure container are oracles; "
-              "docstring escaping is oracle-checked.")
+LEVEL_NOTE = ("Partial: layout (width-aware line breaking) and the lexer are oracles; docstring escaping and the "
+              "collapsing of unary paths by AVM.features() during the round trip are oracle-checked.")
 TECHNIQUE = "Coq proof (token-level parse-of-print by nested induction with fuel adequacy) + kernel-checked correspondence + oracle"
 DESIGN_REF = "DESIGN.md section 6, C15"
 
@@ -173,10 +176,38 @@ def gen(rng, tier):
         cases.append({"k": "file", "ents": f})
     for t in TEXTS:
         cases.append({"k": "text", "text": t})
+    for i in range(n // 2):
+        cases.append(gen_tfs(rng))
     return cases
 
 
+TFS_FEATS = ["A", "B", "c", "Head", "VAL", "x-y"]
+
+
+def _case_variant(rng, s):
+    return "".join(ch.upper() if rng.random() < 0.5 else ch.lower() for ch in s)
+
+
+def gen_tfs(rng):
+    """a history of dotted-path assignments on a FeatureStructure and the paths to look up afterwards"""
+    ops = []
+    for j in range(rng.randrange(1, 7)):
+        path = [_case_variant(rng, rng.choice(TFS_FEATS)) for _ in range(rng.choice([1, 1, 2, 2, 3, 4]))]
+        ops.append([path, j + 1])
+    gets = []
+    for path, _ in ops:
+        gets.append([_case_variant(rng, f) for f in path])
+        if len(path) > 1:
+            gets.append([_case_variant(rng, f) for f in path[:-1]])
+        gets.append([_case_variant(rng, f) for f in path] + [rng.choice(TFS_FEATS)])
+    for _ in range(3):
+        gets.append([rng.choice(TFS_FEATS) for _ in range(rng.choice([1, 2, 3]))])
+    return {"k": "tfs", "ops": ops, "gets": gets}
+
+
 def nontrivial(c):
+    if c["k"] == "tfs":
+        return len(c["ops"]) >= 2
     if c["k"] == "ent":
         e = c["ent"]
         return e["e"] in ("def", "add", "lex") and any(t["t"] in ("avm", "cons", "diff") for t in e["conj"])
@@ -339,8 +370,36 @@ def _text_of(c):
     return c["text"]
 
 
+def _tfs_val(v):
+    from delphin import tfs
+    return -1 if isinstance(v, tfs.FeatureStructure) else v
+
+
+def observe_tfs(c):
+    from delphin import tfs
+    f = tfs.FeatureStructure()
+    oks = []
+    for path, val in c["ops"]:
+        try:
+            f[".".join(path)] = val
+            oks.append(True)
+        except tfs.TFSError:
+            oks.append(False)
+    gets = []
+    for path in c["gets"]:
+        try:
+            gets.append([path, _tfs_val(f[".".join(path)])])
+        except (KeyError, TypeError):
+            gets.append([path, None])
+    return {"oks": oks, "gets": gets,
+            "feats": [[p.split("."), _tfs_val(v)] for p, v in f.features()],
+            "featsx": [[p.split("."), _tfs_val(v)] for p, v in f.features(expand=True)]}
+
+
 def observe(c):
     from delphin import tdl
+    if c["k"] == "tfs":
+        return observe_tfs(c)
     text = _text_of(c)
     try:
         toks = lex(text)
@@ -373,11 +432,35 @@ def flat_events(ents, observe_obj=False):
 
 # ------------------------------------------------------------------ oracle
 
+def oracle_tfs(c):
+    """a value stored under a dotted path is retrieved by that path in any letter case"""
+    from delphin import tfs
+    import random as _r
+    rng = _r.Random(len(c["ops"]))
+    f = tfs.FeatureStructure()
+    for path, val in c["ops"]:
+        try:
+            f[".".join(path)] = val
+        except tfs.TFSError:
+            continue
+        for _ in range(3):
+            variant = ".".join(_case_variant(rng, x) for x in path)
+            try:
+                got = f[variant]
+            except (KeyError, TypeError) as ex:
+                return "value stored under %s is not retrievable as %s (%s)" % (".".join(path), variant, type(ex).__name__)
+            if got != val:
+                return "value stored under %s retrieved as %s is %r" % (".".join(path), variant, got)
+    return None
+
+
 def oracle(c):
     import warnings
     from delphin import tdl
     if c["k"] == "text":
         return None
+    if c["k"] == "tfs":
+        return oracle_tfs(c)
     with warnings.catch_warnings():
         warnings.simplefilter("ignore")
         text = _text_of(c)
@@ -591,6 +674,13 @@ def c_tok(t):
 def coq_case(c, o):
     if "exc" in o:
         raise ValueError("harness")
+    if c["k"] == "tfs":
+        return app("CTfs",
+                   clist(c["ops"], lambda op: "(%s, %d%%N)" % (clist(op[0], cstr), op[1])),
+                   clist(o["oks"], cbool),
+                   clist(o["gets"], lambda g: "(%s, %s)" % (clist(g[0], cstr), copt(g[1], cZ))),
+                   clist(o["feats"], lambda g: "(%s, %s)" % (clist(g[0], cstr), cZ(g[1]))),
+                   clist(o["featsx"], lambda g: "(%s, %s)" % (clist(g[0], cstr), cZ(g[1]))))
     if "lexerr" in o:
         return None
     toks = clist(o["toks"], c_tok)
